@@ -52,6 +52,7 @@ REQUIRED = ["histories", "operations", "open_log_checks", "index_ops", "negative
             "chain_negative_indices", "chain_empty_members", "populations_rows_checked", "populations_slices_checked",
             "to_population_checked", "map_checked", "map_verbose_checked", "map_then_read_audited", "listing_order_injected",
             "large_populations", "roots_spelled_differently", "slices_of_sliced_populations",
+            "populations_without_intersection",
             "transform_checked", "tap_load", "symbolic_link_entries",
             "audit_file_opens"]
 FLOOR = {"quick": 250, "thorough": 20000}
@@ -512,6 +513,37 @@ def check_populations(ctx, case, tmp):
     if unrelated:
         return ctx.violation("eager-load", f"{unrelated[0]} is outside the intersection but was "
                                            f"opened", case)
+    if case["seed"] % 2 == 0:
+        # without intersecting, every directory keeps its own (differing) file set; chaining the
+        # members concatenates them in order: the total length is the sum of the member lengths
+        from swcgeom.core import Population
+
+        with warnings.catch_warnings():
+            warnings.simplefilter("ignore")
+            pops2 = Populations.from_swc(roots, intersect=False)
+            lists = [[os.path.normpath(q_) for q_ in Population.find_swcs(r_, relpath=True)]
+                     for r_ in roots]
+            ctx.count("populations_without_intersection")
+            if [len(p_) for p_ in pops2.populations] != [len(l_) for l_ in lists]:
+                return ctx.violation("populations-length",
+                                     f"intersect=False: member lengths "
+                                     f"{[len(p_) for p_ in pops2.populations]}, the directories "
+                                     f"hold {[len(l_) for l_ in lists]} files", case)
+            chained = pops2.to_population()
+            want = [(j, rel) for j, l_ in enumerate(lists) for rel in l_]
+            if len(chained) != len(want):
+                return ctx.violation("to-population-length",
+                                     f"intersect=False: to_population() has length {len(chained)}, "
+                                     f"the members hold {[len(l_) for l_ in lists]} trees", case)
+            for i in sorted({0, len(want) - 1, *rng.integers(0, max(1, len(want)), 6).tolist()}):
+                if not want:
+                    break
+                j, rel = want[int(i)]
+                if not _is_tree_of(chained[int(i)], roots[j], rel, filesets[j]):
+                    return ctx.violation("to-population-element",
+                                         f"intersect=False: to_population()[{i}] is "
+                                         f"{chained[int(i)].source}, expected {rel} of directory {j}",
+                                         case)
 
 
 def _count_nodes(t):  # top level: must be picklable for the process pool
